@@ -170,6 +170,16 @@ class Checker:
                     D = f if D is None else D * f
         if N is not None and D is not None:
             forms += [("N/D", (N / D) * (x * k)), ("N*(1/D)", (N * (1.0 / D)) * (x * k)), ("(1/D)*N", ((1.0 / D) * N) * (x * k))]
+        # powers written with the ** operator instead of repeated products (ft6 = ft**6)
+        if any(abs(e) >= 2 for _c, _u, e in comp):
+            P = None
+            for coef, u, e in comp:
+                f = Scalar(1.0, u) ** abs(e)
+                if e > 0:
+                    P = f if P is None else P * f
+                else:
+                    P = (1.0 / f) if P is None else P / f
+            forms.append(("powers by **", P * (x * k)))
         ma = mag_of(um, a.GetQuantity(), a.GetValue())
         tol = max(FLOOR, 2 * u_row(info)) + 1e-9
         # a composition that is one unit raised to an exponent (1/ft, ft2, 1/bbl ...) can be re-expressed through the
